@@ -564,6 +564,45 @@ func c12(r *Report) {
 				}
 				return false
 			}
+			// the index expressions into the pattern; usedUp: with x pinned to k, one of them is 0 (the
+			// loop may count the characters still to examine, indexing with x-1 and testing x == 1)
+			var patIdx []ssa.Value
+			for _, in := range instrs(mh) {
+				switch x := in.(type) {
+				case *ssa.Lookup:
+					if isParamVal(x.X, mh.Params[1]) {
+						patIdx = append(patIdx, x.Index)
+					}
+				case *ssa.IndexAddr:
+					if isParamVal(x.X, mh.Params[1]) {
+						patIdx = append(patIdx, x.Index)
+					}
+				case *ssa.Index:
+					if isParamVal(x.X, mh.Params[1]) {
+						patIdx = append(patIdx, x.Index)
+					}
+				}
+			}
+			usedUp := func(x ssa.Value, k int64) bool {
+				if _, isC := x.(*ssa.Const); isC {
+					return false
+				}
+				for _, idx := range patIdx {
+					if _, isC := idx.(*ssa.Const); isC {
+						continue
+					}
+					ev := &miniEval{leaf: func(v ssa.Value) (int64, bool) {
+						if v == x || sameAs(v, x) {
+							return k, true
+						}
+						return 0, false
+					}}
+					if got, okE := ev.Int(idx); okE && got == 0 {
+						return true
+					}
+				}
+				return false
+			}
 			n, ok := 0, true
 			loops := natLoops(mh)
 			for _, ret := range returns(mh) {
@@ -593,6 +632,9 @@ func c12(r *Report) {
 								if (b.Op == token.EQL && ce.Taken) || (b.Op == token.NEQ && !ce.Taken) || (b.Op == token.LEQ && ce.Taken) || (b.Op == token.GTR && !ce.Taken) {
 									consumed = true
 								}
+							}
+							if kk, isKK := constInt(pr[1]); isKK && ((b.Op == token.EQL && ce.Taken) || (b.Op == token.NEQ && !ce.Taken)) && usedUp(pr[0], kk) {
+								consumed = true
 							}
 						}
 					}
